@@ -449,6 +449,8 @@ def _run(ctx, drv, lab, ts_keys):
     if todo:
         ctx.notes.append(f"matrix stopped after {ran} of {len(cfgs)} configurations: a failing input had been found")
     lap("matrix")
+    shared_schedules(ctx, lab, ts_keys)
+    lap("shared-file schedules")
     # ---- correspondence 1: observed state changes must be listed (and benign) in the summary -----------------------
     keys = sorted(state_changes)
     for key, rep in zip(keys, drv.batch([{"op": "state_change", "file": k[0], "owner": k[1], "name": k[2]} for k in keys])):
@@ -495,6 +497,74 @@ def _run(ctx, drv, lab, ts_keys):
     ctx.failures = dedupe_failures(ctx.failures)
 
 
+SHARED_CFG = {"seed": "0", "cwd": "repo", "locale": "C.UTF-8", "mode": "gather", "home": 0}
+
+
+def shared_groups(rng, n):
+    """groups of 2-4 tool calls that all name ONE existing file: amendments of different keys, re-normalisation,
+    overwrite, validation of the file.  Submission order is part of the input."""
+    groups = []
+    for g in range(n):
+        doc, _flav = effects_calls.gen_doc(rng)
+        tp = "$SB/out/t.oct.md"
+        calls = []
+        keys = ["A", "STATUS", "META.STATUS", "META.NEW", "COUNT", "ZED", "NAME", "OWNER"]
+        rng.shuffle(keys)
+        for j in range(rng.randrange(2, 5)):
+            r = rng.random()
+            if r < .55:
+                a = {"target_path": tp, "changes": {keys[j]: effects_calls.pick(rng, ["x", 5, True, ["a", "b"], "two words", 1.5, {"$op": "DELETE"}])}}
+                tool = "write"
+            elif r < .7:
+                a, tool = {"target_path": tp}, "write"                       # normalize mode
+            elif r < .8:
+                a, tool = {"target_path": tp, "content": effects_calls.gen_doc(rng)[0]}, "write"
+            else:
+                a, tool = {"file_path": tp, "schema": "META"}, "validate"
+            if tool == "write" and rng.random() < .3:
+                a["lenient"] = True
+            calls.append({"id": 700000 + g * 10 + j, "tool": tool, "args": a})
+        calls[0]["files"] = {"out/t.oct.md": doc}
+        groups.append(calls)
+    return groups
+
+
+def shared_view(rep, ts_keys):
+    texts = json.loads(rep["out"])
+    return [view({"out": t, "files": {}}, ts_keys) for t in texts], rep.get("left")
+
+
+def run_shared(group, lab, ts_keys):
+    seq, par = run_worker([{"cmd": "shared", "how": "seq", "calls": group}, {"cmd": "shared", "how": "gather", "calls": group}], SHARED_CFG, lab)
+    return shared_view(seq, ts_keys), shared_view(par, ts_keys)
+
+
+def shared_schedules(ctx, lab, ts_keys, groups=None):
+    """sequential versus concurrently scheduled calls on the SAME file: the envelopes, in submission order, and the bytes
+    left on disk must not depend on whether the calls were awaited one after the other or submitted together."""
+    import random
+    if groups is None:
+        groups = shared_groups(random.Random(f"c06-shared-{ctx.seed}"), ctx.budget(48, 400))
+
+    def one(g):
+        return g, run_shared(g, lab, ts_keys)
+    with ThreadPoolExecutor(vlib.NCPU) as ex:
+        results = list(ex.map(one, groups))
+    for g, ((seq_out, seq_left), (par_out, par_left)) in results:
+        ctx.case({"shared": [c["id"] for c in g]}, nontrivial=any('"status": "success"' in t for t in seq_out))
+        ctx.count("shared-group:" + "+".join(sorted({("amend" if "changes" in c["args"] else "overwrite" if "content" in c["args"] else "normalize")
+                                                      if c["tool"] == "write" else c["tool"] for c in g})))
+        if seq_out != par_out or seq_left != par_left:
+            k = next((i for i, (a, b) in enumerate(zip(seq_out, par_out)) if a != b), None)
+            ctx.failures.append({
+                "case": {"shared": g}, "why_class": "differs:shared-file:gather",
+                "why": "calls naming one file give different " + ("envelopes" if k is not None else "final file bytes")
+                       + " when submitted together with asyncio.gather than when awaited one after the other in the same order",
+                "sequential": {"envelopes": [t[:1500] for t in seq_out], "left": seq_left},
+                "gathered": {"envelopes": [t[:1500] for t in par_out], "left": par_left},
+                "first_difference": first_diff(seq_out[k], par_out[k]) if k is not None else first_diff(json.dumps(seq_left), json.dumps(par_left))})
+
+
 def compare_cfg(ctx, cfg, out, calls, ref, ref_view, ts_keys, state_changes):
     name = cfg_name(cfg)
     for c in calls:
@@ -520,10 +590,14 @@ def compare_cfg(ctx, cfg, out, calls, ref, ref_view, ts_keys, state_changes):
 def replay(ctx, lab, ts_keys):
     """--replay f : re-execute exactly the failing call of f on the current tree — once in the reference
     configuration (fresh process) and once in the recorded configuration (for the long-lived / gather modes
-    together with 200 other calls regenerated from the recorded seed)."""
+    together with 200 other calls regenerated from the recorded seed); a shared-file group is re-run sequentially and gathered."""
     import random
     data = json.loads(Path(ctx.replay).read_text())
     case, cfg = data.get("case"), data.get("configuration")
+    if isinstance(case, dict) and "shared" in case:
+        shared_schedules(ctx, lab, ts_keys, [case["shared"]])
+        ctx.notes.append(f"replayed {ctx.replay}: {'still fails' if ctx.failures else 'no longer fails'}")
+        return True
     if not (isinstance(case, dict) and "tool" in case and isinstance(cfg, dict)):
         ctx.notes.append("replay file holds no failing call (tie-broken): running the full check instead")
         return False
